@@ -124,7 +124,9 @@ class C15(Prop):
         # is read back (dump: h / s / d with the stored bits) and serialized again: exact bits in, identical bytes out, NaN canonical
         il = []
         halves = list(range(0, 65536, 1 if tier == 'thorough' else 13)) + [0x7c00, 0xfc00, 0x7e00, 0xfe00, 0x7c01, 0xfc01, 0x0001, 0x8001, 0x03ff, 0x0400, 0x7bff, 0x8000]
-        Ss = S[:: 1 if tier == 'thorough' else 5]; Ds = D[:: 1 if tier == 'thorough' else 3]
+        Ss = sorted(set(S[:: 1 if tier == 'thorough' else 5]) | {0, 1 << 31, 0x7f800000, 0xff800000, 0x7fc00000, 0xffc00000, 0x7f800001, 0xff800001, 1, 0x007fffff, 0x00800000, 0x7f7fffff, 0x3f800000})
+        Ds = sorted(set(D[:: 1 if tier == 'thorough' else 3]) | {0, 1 << 63, 0x7ff0000000000000, 0xfff0000000000000, 0x7ff8000000000000, 0xfff8000000000000, 0x7ff0000000000001, 0xfff0000000000001,
+                                                                 1, 0x000fffffffffffff, 0x0010000000000000, 0x7fefffffffffffff, 0x3ff0000000000000})
         for h in halves: il.append(('h', h, 'LOAD f9%04x' % h))
         for b in Ss: il.append(('s', b, 'LOAD fa%08x' % b))
         for b in Ds: il.append(('d', b, 'LOAD fb%016x' % b))
